@@ -86,13 +86,15 @@ CHECKS = {
             "Proved for all valid NFA operands (unbounded states, alphabets, words): union, concatenate, kleene_star, option, reverse, "
             "intersection, shuffle_product, right_quotient, left_quotient (model = repaired code) each return Ok with a valid NFA whose "
             "language is exactly the textbook operation of Spec/Lang.v; eliminate_lambda preserves the language and leaves no empty-string "
-            "edge; every finite composition (expression tree) of the operations evaluates without error to the composed language. union, "
-            "concatenate and reverse additionally assume rows_keyed (every transition row belongs to a state). Nothing partial. Model tied "
+            "edge; every finite composition (expression tree) of the operations evaluates without error to the composed language. The only "
+            "hypothesis is valid_nfa (what NFA.validate() accepts, transition rows keyed by non-states included: union, concatenate and "
+            "reverse skip them as the code does since bd7ae94). Nothing partial. Model tied "
             "to the code per case by valid + exact language equality (verified comparator, explicit fuel) and by a word-level oracle on all "
             "words up to length 5 (4 for 3 symbols); operators + | & included.",
-            "Known defect demonstrated on the unchanged tree: left_quotient raises MissingStateError (DESIGN 8 row 3). Open known finding: "
-            "nfa_stray_transition_row (a row keyed by a non-state passes validate(); union/concatenate raise KeyError, reverse "
-            "InvalidStateError).", "7/C08"),
+            "Fixed findings whose reproducers run as corpus cases: left_quotient MissingStateError (f27bb3b), nfa_stray_transition_row "
+            "(bd7ae94; operands with stray rows, incl. names colliding with the fresh state, are generated). Open known finding: "
+            "eliminate_lambda_stray_row_dangling_target (eliminate_lambda, C07's operation, raises InvalidStateError when a stray row "
+            "points to a state it prunes).", "7/C08"),
     "C13": ("Coq theorems about executable models of the count / word-list recurrences, BFS minimum length, layered maximum "
             "length, cardinality, iteration and count-weighted unranking + differential correspondence against /repo "
             "(all observables compared literally; randint draws reproduced from Random(seed); all draw vectors enumerated "
